@@ -160,3 +160,12 @@ End Keeps.
 (* the hypothesis on tx can be met: the identity keeps everything *)
 Example tx_keeps_identity : tx_keeps (fun x => x).
 Proof. intro x. unfold tx_keeps_on. now rewrite !eqb_reflx. Qed.
+
+(* F12 again, now with the template-text checks in the picture *)
+Lemma valid_after_full_refuted :
+  exists j, valid_source_full false j = true
+    /\ match fst (migrate_to_latest (fun x => x) j []) with MOut j' => valid_current_full j' = false | _ => False end.
+Proof. exists example_f12. split; vm_compute; reflexivity. Qed.
+
+Example valid_after_full_applies : valid_source_full true example_13_0 = true.
+Proof. vm_compute. reflexivity. Qed.
